@@ -38,15 +38,15 @@ ASSUMPTIONS = [
     "after an operation raised, the remaining clauses of that sequence are not evaluated and the sequence is not extended",
 ]
 BOUNDS = {
-    "quick": ("surface: SURF triangles n<=4 all labelled + n=5 one per class, triangle+quad n=4 all labelled + n=5 (<=4 faces) one per class, "
-              "pentagon / triangle+pentagon / quad+pentagon classes on 5 vertices, 14 ZOO specimens; sequences of total weight <= 2 "
-              "(loop_subdivision(2) and subdivide_triangles_6(2) weigh 2; ZOO: weight <= 1 (+ the two weight-2 events)); face arguments: first face of each arity and the "
-              "last face; volume: TET(4), TET(5) (27 complexes) x {sorted, positively oriented cells}, sequences <= 2, arguments: every cell, "
-              "every raw face (second step: representatives + elements touched by the first); polyline: GRAPH(2..4) (71 graphs with an edge), "
-              "split_edge sequences <= 3 over every current edge; accessor domains capped at 300 arguments"),
+    "quick": ("refined meshes of more than 160 faces are not produced (thorough: 640); surface: one member per isomorphism class of SURF triangles n<=5, triangle+quad n=4 and n=5 (<=4 faces), pentagon / triangle+pentagon / "
+              "quad+pentagon on 5 vertices with sequences of total weight <= 2 (loop_subdivision(2) and subdivide_triangles_6(2) weigh 2); every labelled "
+              "SURF triangle and triangle+quad complex on <= 4 vertices (66) and 14 ZOO specimens with weight <= 1 (+ the two weight-2 events); face arguments: "
+              "first face of each arity and the last face; volume: TET(4), TET(5) (27 complexes), positively oriented cells: sequences <= 2, arguments: every cell, "
+              "every raw face (second step: representatives + elements touched by the first), cells listed sorted (mixed orientation): single operations; polyline: GRAPH(2..4) (71 graphs with an edge), "
+              "split_edge sequences <= 3 over every current edge; accessor domains capped at 60 arguments"),
     "thorough": ("as quick with sequences of weight <= 3 on SURF n<=4 and on the n=5 classes, weight <= 2 on all labelled SURF n=5 triangle (410), "
                  "pentagon, and every single-transposition relabeling of the triangle+quad / polygon classes; larger ZOO at weight <= 2; volume sequences <= 2 with every "
-                 "cell and face argument at both steps, <= 3 with representatives; accessor domains capped at 1500 arguments"),
+                 "cell and face argument at both steps, <= 3 with representatives; accessor domains capped at 500 arguments (input-object caches: 60)"),
 }
 
 
@@ -85,12 +85,13 @@ def _surf_inputs(tier):
     """(name, n, faces, depth)"""
     d_small = 2 if tier == "quick" else 3
     ins = []
-    for n in (3, 4):
-        for i, fl in enumerate(F.surf_enum(n)):
-            ins.append((f"tri{n}#{i}", n, fl, d_small))
-    for i, fl in enumerate(F.surf_enum(4, (3, 4))):
-        if any(len(f) == 4 for f in fl):
-            ins.append((f"mix4#{i}", 4, fl, d_small))
+    small = {"tri3": (3, list(F.surf_enum(3))), "tri4": (4, list(F.surf_enum(4))),
+             "mix4": (4, [fl for fl in F.surf_enum(4, (3, 4)) if any(len(f) == 4 for f in fl)])}
+    for fam, (n, lists) in small.items():
+        for i, fl in enumerate(_classes(lists, n)):
+            ins.append((f"{fam}c#{i}", n, fl, d_small))
+        for i, fl in enumerate(lists):          # every labelling: weight 1 in quick (a class member above goes deeper)
+            ins.append((f"{fam}#{i}", n, fl, 1 if tier == "quick" else 3))
     fam5 = {
         "tri5": list(F.surf_enum(5)),
         "mix5": [fl for fl in F.surf_enum(5, (3, 4), 4) if any(len(f) == 4 for f in fl)],
@@ -119,16 +120,17 @@ def _surf_inputs(tier):
 
 
 def tasks(tier):
-    cap = 300 if tier == "quick" else 1500
+    cap = 60 if tier == "quick" else 500
     out = []
     ins = _surf_inputs(tier)
     heavy = [x for x in ins if x[3] >= 3]
-    light = [x for x in ins if x[3] < 3]
+    light = [x for x in ins if x[3] == 2]
+    tiny = [x for x in ins if x[3] < 2]
     for x in heavy:
         out.append({"fam": "surf", "cap": cap, "all_faces": tier == "thorough", "meshes": [x]})
-    B = 2
-    for i in range(0, len(light), B):
-        out.append({"fam": "surf", "cap": cap, "all_faces": tier == "thorough", "meshes": light[i:i + B]})
+    for B, lst in ((2, light), (12, tiny)):
+        for i in range(0, len(lst), B):
+            out.append({"fam": "surf", "cap": cap, "all_faces": tier == "thorough", "meshes": lst[i:i + B]})
     for name, p, f in _zoo(tier):
         big = len(f) > 12
         d = 1 if tier == "quick" else (1 if big else 2)
@@ -140,8 +142,8 @@ def tasks(tier):
             tets.append([f"tet{n}#{i}", n, [list(c) for c in cl]])
     for x in tets:
         for variant in ("positive", "sorted"):
-            out.append({"fam": "tet", "cap": cap, "complex": x, "variant": variant, "depth": 2,
-                        "all_args": tier == "thorough"})
+            out.append({"fam": "tet", "cap": cap, "complex": x, "variant": variant,
+                        "depth": 1 if (tier == "quick" and variant == "sorted") else 2, "all_args": tier == "thorough"})
             if tier == "thorough":
                 out.append({"fam": "tet", "cap": cap, "complex": x, "variant": variant, "depth": 3, "all_args": False})
     # polylines
@@ -197,6 +199,15 @@ def _thin(dom, cap):
         return dom
     step = -(-len(dom) // cap)
     return dom[::step] + [dom[-1]]
+
+
+def _warm(m, o, events):
+    """put every lazily built cache of the object into its 'built' state (one call per accessor; accessors that
+    cache per argument are called on their whole domain). The answers are C01's/C03's subject."""
+    for ev in events:
+        dom = list(ev.domain(o))
+        for a in (dom if getattr(ev, "per_arg", False) else dom[:2]):
+            call(ev.fn, m, *a)
 
 
 def _eval_accessors(m, o, events, cap, rep, extra=None):
@@ -261,6 +272,7 @@ class SurfCtx:
         from props import c01
         self.M, self.name, self.pts, self.faces, self.depth, self.cap, self.rep = M, name, pts, faces, depth, cap, rep
         self.all_faces, self.is_zoo = all_faces, is_zoo
+        self.max_faces = 160 if cap < 100 else 640      # bound on the number of faces of a refined mesh (quick / thorough)
         self.sort = bool(M.config.sort_neighborhoods)
         self.events = c01._events(self.sort)
         self.arity = _arity_class(faces)
@@ -282,7 +294,7 @@ class SurfCtx:
 
     def warm(self, m):
         o = SurfOracle(self.F0, len(self.P0), self.E0)
-        _eval_accessors(m, o, self.events, self.cap, Report())     # answers are C01's subject; here only the cache state matters
+        _warm(m, o, self.events)
         m.is_triangular(); m.is_quad()
 
     def detail(self, seq, **kw):
@@ -290,11 +302,14 @@ class SurfCtx:
         return d
 
 
-def _surf_events(state, weight_left, all_faces, is_zoo):
+def _surf_events(state, weight_left, all_faces, is_zoo, max_faces, rep):
     Fl = state["F"]
     evs = []
+    lens = [len(f) for f in Fl]
     for kind, w in S_GLOBAL:
-        if w <= weight_left or (is_zoo and w == 2 and weight_left == 1 and state["depth"] == 0 and len(Fl) <= 12):
+        if w <= weight_left or (is_zoo and w == 2 and weight_left == 1 and state["depth"] == 0):
+            if R.estimate_faces(lens, kind) > max_faces:
+                rep.count("events_skipped_result_larger_than_the_face_bound"); continue
             evs.append((kind, None))
     reps = []
     if all_faces and len(Fl) <= 6:
@@ -326,6 +341,17 @@ def _edge_table_class(st):
     return "raw_edge_list_complete_no_quads" if (sides <= have and not quads) else "raw_edge_list_lacks_a_side_or_quads_present"
 
 
+def _where(ex, cls_name):
+    """public method of the subdivision module in which the exception was raised (innermost frame of that file)"""
+    tb, name = ex.__traceback__, None
+    while tb is not None:
+        code = tb.tb_frame.f_code
+        if code.co_filename.endswith("subdivision.py") and not code.co_name.startswith("_"):
+            name = code.co_name
+        tb = tb.tb_next
+    return None if name is None else f"{cls_name}.{name}"
+
+
 def _run_surf_block(cx: SurfCtx, seq, queried):
     """One complete editing block on a fresh mesh. Returns dict(m, ed, pre, states, exc)."""
     from mouette.mesh.subdivision import SurfaceSubdivision
@@ -333,7 +359,7 @@ def _run_surf_block(cx: SurfCtx, seq, queried):
     if queried:
         cx.warm(m)
     pre = _snap_surf(m)
-    states, exc, shared = [], None, None
+    states, exc, shared, where = [], None, None, None
     ed = SurfaceSubdivision(m)
     try:
         with ed:
@@ -343,7 +369,8 @@ def _run_surf_block(cx: SurfCtx, seq, queried):
             shared = ed.mesh.faces is m.faces and ed.mesh.vertices is m.vertices
     except Exception as ex:   # noqa
         exc = (len(states), type(ex).__name__, str(ex)[:200])
-    return {"m": m, "ed": ed, "pre": pre, "states": states, "exc": exc, "shared": shared}
+        where = _where(ex, "SurfaceSubdivision")
+    return {"m": m, "ed": ed, "pre": pre, "states": states, "exc": exc, "shared": shared, "where": where}
 
 
 def _validity_surface(s, n):
@@ -410,16 +437,19 @@ def _check_surface_result(cx: SurfCtx, seq, Rm, last_obs, Pex, callee, cls):
     return s
 
 
-def _check_surface_input_object(cx: SurfCtx, seq, run, sres, queried, callee):
-    """the object passed in: unchanged or equal to the result, and its caches answer for its own containers"""
+def _check_surface_input_object(cx: SurfCtx, seq, run, sres, queried, callee, suppress=()):
+    """the object passed in: unchanged or equal to the result, and its caches answer for its own containers.
+    Returns the set of clauses reported; clauses in `suppress` (already reported for the same sequence without
+    queried connectivity) are not reported again, so that a 'queried_before' class means: ONLY when queried."""
     rep = cx.rep
+    done = set()
     m = run["m"]
     replaced = "containers_replaced" if any(k in S_REPLACING for k, _ in seq) else "edited_in_place"
     cls = f"{replaced}:{'queried_before' if queried else 'not_queried'}"
     o = call(_snap_surf, m)
     rep.evaluations += 1
     if not o.ok:
-        rep.violation("C13.surf.input_object", callee, "side_effect:input_containers_unreadable", cls, cx.detail(seq, msg=o.msg)); return
+        rep.violation("C13.surf.input_object", callee, "side_effect:input_containers_unreadable", cls, cx.detail(seq, msg=o.msg)); return done
     s = o.value
     if s == run["pre"]:
         state = "unchanged"
@@ -427,21 +457,27 @@ def _check_surface_input_object(cx: SurfCtx, seq, run, sres, queried, callee):
         state = "equal_to_result"
     else:
         diff = [k for k in ("V", "E", "F", "FC") if s[k] != run["pre"][k]]
+        done.add("input_object")
+        if "input_object" in suppress:
+            return done
         rep.violation("C13.surf.input_object", callee, "side_effect:input_half_updated", cls,
                       cx.detail(seq, differs_from_preimage=diff, differs_from_result=[k for k in ("V", "E", "F", "FC") if sres is None or s[k] != sres[k]],
                                 input_faces=s["F"][:8], input_face_corners=len(s["FC"][0])))
-        return
+        return done
     rep.outcome("input_object", state)
     if not (queried or state == "equal_to_result"):
-        return
+        return done
     n = len(s["V"])
-    if _validity_surface(s, n):
-        return      # reported on the result
+    if _validity_surface(s, n) or "input_caches" in suppress:
+        return done      # reported on the result / already reported for this sequence
     orc = SurfOracle(s["F"], n, s["E"])
     tri = all(len(f) == 3 for f in s["F"]); quad = all(len(f) == 4 for f in s["F"])
-    fails = _eval_accessors(m, orc, cx.events, cx.cap, rep, extra=[("is_triangular", m.is_triangular, tri), ("is_quad", m.is_quad, quad)])
+    fails = _eval_accessors(m, orc, cx.events, min(cx.cap, 60), rep, extra=[("is_triangular", m.is_triangular, tri), ("is_quad", m.is_quad, quad)])
     if fails:
-        rep.violation("C13.surf.input_caches", callee, "mismatch:stale_connectivity", cls + ":" + state, cx.detail(seq, **_summary(fails)))
+        done.add("input_caches")
+        if "input_caches" not in suppress:
+            rep.violation("C13.surf.input_caches", callee, "mismatch:stale_connectivity", cls + ":" + state, cx.detail(seq, **_summary(fails)))
+    return done
 
 
 def explore_surface(cx: SurfCtx):
@@ -456,7 +492,7 @@ def explore_surface(cx: SurfCtx):
         seq = frontier.pop(0)
         st = known[seq]
         wl = cx.depth - sum(S_WEIGHT[k] for k, _ in seq)
-        for ev in _surf_events(st, wl, cx.all_faces, cx.is_zoo):
+        for ev in _surf_events(st, wl, cx.all_faces, cx.is_zoo, cx.max_faces, rep):
             seq2 = seq + (ev,)
             kind, arg = ev
             callee = S_CALLEE[kind]
@@ -467,14 +503,14 @@ def explore_surface(cx: SurfCtx):
                 rec = known[seq2[:i + 1]]
                 if runA["states"][i]["V"] != rec["V"] or runA["states"][i]["F"] != rec["F"]:
                     raise AssertionError(f"replay divergence on {cx.name} {seq2} step {i}")
-            after = None
+            after, doneA = None, set()
             if runA["exc"] is not None:
                 k, exn, msg = runA["exc"]
                 rep.outcome(kind, "raise:" + exn)
                 if k < len(seq):
                     raise AssertionError(f"replayed prefix raised on {cx.name} {seq2}: {runA['exc']}")
                 if k == len(seq):
-                    rep.violation("C13.surf.accepts", callee, "raises:" + exn, _edge_table_class(st),
+                    rep.violation("C13.surf.accepts", runA["where"] or callee, "raises:" + exn, ("second_round_of_a_repeated_refinement" if S_WEIGHT[kind] == 2 and _edge_table_class(st).startswith("raw_edge_list_complete") else _edge_table_class(st)),
                                   cx.detail(seq2, msg=msg, state_faces_before=st["F"][:8], state_edges_before=[list(e) for e in st["E"][:12]]))
                 else:
                     rep.violation("C13.surf.hands_back_a_mesh", "SurfaceSubdivision.__exit__", "raises:" + exn, cx.icls, cx.detail(seq2, msg=msg))
@@ -506,7 +542,7 @@ def explore_surface(cx: SurfCtx):
                 if after is not None:
                     opcls = "+".join(sorted(set(k for k, _ in seq2))) + ":" + cx.icls
                     sres = _check_surface_result(cx, seq2, runA["ed"].mesh, obs, Pex, callee, opcls)
-                    _check_surface_input_object(cx, seq2, runA, sres, False, "SurfaceSubdivision.__exit__")
+                    doneA = _check_surface_input_object(cx, seq2, runA, sres, False, "SurfaceSubdivision.__exit__")
             # ---- same sequence with connectivity queried before
             runB = _run_surf_block(cx, seq2, True)
             rep.evaluations += 1
@@ -521,7 +557,7 @@ def explore_surface(cx: SurfCtx):
                 rep.violation("C13.surf.pre_state_independent", callee, "mismatch:result_depends_on_queried_connectivity", cx.icls,
                               cx.detail(seq2, exc_fresh=runA["exc"], exc_queried=runB["exc"]))
             elif after is not None:
-                _check_surface_input_object(cx, seq2, runB, sresB, True, "SurfaceSubdivision.__exit__")
+                _check_surface_input_object(cx, seq2, runB, sresB, True, "SurfaceSubdivision.__exit__", doneA)
             # ---- expansion
             if after is not None:
                 key = h64(pickle.dumps((after["V"], after["F"], after["E"], runA["shared"])))
@@ -549,6 +585,7 @@ def check_split_double(cx: SurfCtx):
     targets = [i for i, f in enumerate(cx.F0) if sum(1 for e in F.directed_edges(f) if e in bh) >= 2]
     seq = (("SDB", None),)
     results = {}
+    doneA = set()
     for queried in (False, True):
         rep.traces += 1; rep.transitions += 1
         m = cx.build()
@@ -586,7 +623,7 @@ def check_split_double(cx: SurfCtx):
         run = {"m": m, "pre": pre}
         # in-place function: the documented result IS the input object
         sq = (("FAN", None),) if targets else ()
-        _check_surface_input_object(cx, sq, run, s, queried, callee)
+        doneA = _check_surface_input_object(cx, sq, run, s, queried, callee, doneA)
     if len(results) == 2 and results[False] != results[True]:
         rep.violation("C13.surf.pre_state_independent", callee, "mismatch:result_depends_on_queried_connectivity", cx.icls, cx.detail(seq))
 
@@ -623,7 +660,7 @@ class VolCtx:
         return self.c03.VolOracle(s["C"], len(s["V"]), s["F"], s["E"], s["V"])
 
     def warm(self, m):
-        _eval_accessors(m, self.oracle(self.s0), self.events, self.cap, Report())
+        _warm(m, self.oracle(self.s0), self.events)
 
     def detail(self, seq, **kw):
         d = dict(self.base); d["sequence"] = [list(e) for e in seq]; d.update(kw)
@@ -639,7 +676,7 @@ def _run_vol_block(cx: VolCtx, seq, queried):
     if queried:
         cx.warm(m)
     pre = _snap_vol(m)
-    states, exc = [], None
+    states, exc, where = [], None, None
     ed = VolumeSubdivision(m)
     try:
         with ed:
@@ -649,7 +686,8 @@ def _run_vol_block(cx: VolCtx, seq, queried):
                 states.append({"V": _pts(ed.mesh.vertices), "C": _rows(ed.mesh.cells), "F": _rows(ed.mesh.faces)})
     except Exception as ex:   # noqa
         exc = (len(states), type(ex).__name__, str(ex)[:200])
-    return {"m": m, "ed": ed, "pre": pre, "states": states, "exc": exc}
+        where = _where(ex, "VolumeSubdivision")
+    return {"m": m, "ed": ed, "pre": pre, "states": states, "exc": exc, "where": where}
 
 
 def _validity_volume(s):
@@ -719,15 +757,16 @@ def _check_volume_result(cx: VolCtx, seq, Rm, last_obs, Pex, callee, cls):
     return s
 
 
-def _check_volume_input_object(cx: VolCtx, seq, run, sres, queried):
+def _check_volume_input_object(cx: VolCtx, seq, run, sres, queried, suppress=()):
     rep = cx.rep
+    done = set()
     m = run["m"]
     callee = "VolumeSubdivision.__exit__"
     cls = f"edited_in_place:{'queried_before' if queried else 'not_queried'}"
     o = call(_snap_vol, m)
     rep.evaluations += 1
     if not o.ok:
-        rep.violation("C13.vol.input_object", callee, "side_effect:input_containers_unreadable", cls, cx.detail(seq, msg=o.msg)); return
+        rep.violation("C13.vol.input_object", callee, "side_effect:input_containers_unreadable", cls, cx.detail(seq, msg=o.msg)); return done
     s = o.value
     keys = ("V", "E", "F", "FC", "C", "CC", "CF")
     if s == run["pre"]:
@@ -735,16 +774,23 @@ def _check_volume_input_object(cx: VolCtx, seq, run, sres, queried):
     elif sres is not None and s == sres:
         state = "equal_to_result"
     else:
+        done.add("input_object")
+        if "input_object" in suppress:
+            return done
         rep.violation("C13.vol.input_object", callee, "side_effect:input_half_updated", cls,
                       cx.detail(seq, differs_from_preimage=[k for k in keys if s[k] != run["pre"][k]],
                                 differs_from_result=[k for k in keys if sres is None or s[k] != sres[k]]))
-        return
+        return done
     rep.outcome("vol_input_object", state)
-    if _validity_volume(s):
-        return
-    fails = _eval_accessors(m, cx.oracle(s), cx.events, cx.cap, rep)
+    if _validity_volume(s) or "input_caches" in suppress:
+        return done
+    fails = _eval_accessors(m, cx.oracle(s), cx.events, min(cx.cap, 60), rep)
     if fails:
+        if "input_caches" in suppress:
+            return done
+        done.add("input_caches")
         rep.violation("C13.vol.input_caches", callee, "mismatch:stale_connectivity", cls + ":" + state, cx.detail(seq, **_summary(fails)))
+    return done
 
 
 def _vol_args(st, prev, all_args):
@@ -788,14 +834,14 @@ def explore_volume(cx: VolCtx):
                 if runA["states"][i]["V"] != rec["V"] or runA["states"][i]["C"] != rec["C"]:
                     raise AssertionError(f"replay divergence on {cx.name} {seq2} step {i}")
             cls = "first_operation_of_the_block" if not seq else "later_operation_of_the_block"
-            after, sres = None, None
+            after, sres, doneA = None, None, set()
             if runA["exc"] is not None:
                 k, exn, msg = runA["exc"]
                 rep.outcome(kind, "raise:" + exn)
                 if k < len(seq):
                     raise AssertionError(f"replayed prefix raised on {cx.name} {seq2}: {runA['exc']}")
                 if k == len(seq):
-                    rep.violation("C13.vol.accepts", callee, "raises:" + exn, cls, cx.detail(seq2, msg=msg))
+                    rep.violation("C13.vol.accepts", runA["where"] or callee, "raises:" + exn, cls, cx.detail(seq2, msg=msg))
                 else:
                     rep.violation("C13.vol.hands_back_a_mesh", "VolumeSubdivision.__exit__", "raises:" + exn, cls, cx.detail(seq2, msg=msg))
             else:
@@ -813,7 +859,7 @@ def explore_volume(cx: VolCtx):
                                   cx.detail(seq2, cells_before=st["C"], faces_before=st["F"], cells_after=obs["C"], **sf.detail))
                 if after is not None:
                     sres = _check_volume_result(cx, seq2, runA["ed"].mesh, obs, Pex, callee, cls)
-                    _check_volume_input_object(cx, seq2, runA, sres, False)
+                    doneA = _check_volume_input_object(cx, seq2, runA, sres, False)
             runB = _run_vol_block(cx, seq2, True)
             rep.evaluations += 1
             same = (runB["exc"] == runA["exc"]) and [(s["V"], s["C"]) for s in runB["states"]] == [(s["V"], s["C"]) for s in runA["states"]]
@@ -826,7 +872,7 @@ def explore_volume(cx: VolCtx):
                 rep.violation("C13.vol.pre_state_independent", callee, "mismatch:result_depends_on_queried_connectivity", cls,
                               cx.detail(seq2, exc_fresh=runA["exc"], exc_queried=runB["exc"]))
             elif after is not None:
-                _check_volume_input_object(cx, seq2, runB, sresB, True)
+                _check_volume_input_object(cx, seq2, runB, sresB, True, doneA)
             if after is not None:
                 key = h64(pickle.dumps((after["V"], after["C"], after["F"])))
                 known[seq2] = after
@@ -917,10 +963,18 @@ def explore_polyline(M, n, edges, depth, rep: Report):
             seq2 = seq + (e,)
             after = None
             snaps = {}
+            reported = set()
             for queried in (False, True):
                 rep.traces += 1; rep.transitions += 1
                 cls = f"polyline:{'first_split' if not seq else 'after_a_split'}:{'queried_before' if queried else 'not_queried'}"
                 det = dict(base, sequence=list(seq2))
+
+                def V(sub, kind, detail, cls=cls, queried=queried):
+                    # a clause already reported for this sequence without queried connectivity is not repeated
+                    if queried and sub in reported:
+                        return
+                    reported.add(sub)
+                    rep.violation("C13.polyline." + sub, callee, kind, cls, detail)
                 pl = build()
                 if queried:
                     _line_oracle_fails(pl, s0, Report())
@@ -933,52 +987,52 @@ def explore_polyline(M, n, edges, depth, rep: Report):
                 o = call(split_edge, pl, e)
                 if not o.ok:
                     rep.outcome("split_edge", "raise:" + o.exc)
-                    rep.violation("C13.polyline.accepts", callee, exc_kind(o), cls, dict(det, msg=o.msg)); continue
+                    V("accepts", exc_kind(o), dict(det, msg=o.msg)); continue
                 res = o.value
                 rep.outcome("split_edge", "ok")
                 if type(res) is not M.mesh.PolyLine:
-                    rep.violation("C13.polyline.hands_back_a_mesh", callee, "mismatch:type", cls, dict(det, got=type(res).__name__)); continue
+                    V("hands_back_a_mesh", "mismatch:type", dict(det, got=type(res).__name__)); continue
                 osn = call(_snap_line, res)
                 if not osn.ok:
-                    rep.violation("C13.polyline.valid_mesh", callee, "mismatch:containers_unreadable", cls, dict(det, msg=osn.msg)); continue
+                    V("valid_mesh", "mismatch:containers_unreadable", dict(det, msg=osn.msg)); continue
                 s = osn.value
                 snaps[queried] = s
                 rep.evaluations += 8
                 bad = _validity_line(s)
                 if bad:
-                    rep.violation("C13.polyline.valid_mesh", callee, "mismatch:" + bad[0], cls, dict(det, labels=bad, result_edges=[list(x) for x in s["E"]])); continue
+                    V("valid_mesh", "mismatch:" + bad[0], dict(det, labels=bad, result_edges=[list(x) for x in s["E"]])); continue
                 # counts, originals, position of the new vertex, the refined edge set
                 n0 = len(st["V"])
                 if len(s["V"]) != n0 + 1 or len(s["E"]) != len(st["E"]) + 1:
-                    rep.violation("C13.polyline.counts", callee, "mismatch:element_count", cls, dict(det, got=[len(s["V"]), len(s["E"])], want=[n0 + 1, len(st["E"]) + 1])); continue
+                    V("counts", "mismatch:element_count", dict(det, got=[len(s["V"]), len(s["E"])], want=[n0 + 1, len(st["E"]) + 1])); continue
                 if s["V"][:n0] != st["V"]:
-                    rep.violation("C13.polyline.originals_in_place", callee, "mismatch:original_vertex_moved", cls, det); continue
+                    V("originals_in_place", "mismatch:original_vertex_moved", det); continue
                 a, b = st["E"][e]
                 mid = R.centroid3((st["P"][a], st["P"][b]))
                 c, d = R.snap(s["V"][n0], [(0, tuple(float(x) for x in mid))], R.tolerance(st["V"]))
                 if c is None:
-                    rep.violation("C13.polyline.new_vertex_position", callee, "mismatch:new_vertex_not_at_the_middle", cls, dict(det, got=list(s["V"][n0]), want=[float(x) for x in mid])); continue
+                    V("new_vertex_position", "mismatch:new_vertex_not_at_the_middle", dict(det, got=list(s["V"][n0]), want=[float(x) for x in mid])); continue
                 want = sorted([tuple(sorted(x)) for i, x in enumerate(st["E"]) if i != e] + [tuple(sorted((a, n0))), tuple(sorted((b, n0)))])
                 if sorted(tuple(sorted(x)) for x in s["E"]) != want:
-                    rep.violation("C13.polyline.refinement_pattern", callee, "mismatch:edges_not_the_documented_split", cls, dict(det, got=[list(x) for x in s["E"]], want=[list(x) for x in want])); continue
+                    V("refinement_pattern", "mismatch:edges_not_the_documented_split", dict(det, got=[list(x) for x in s["E"]], want=[list(x) for x in want])); continue
                 Pex = st["P"] + [mid]
                 if len(F.components(len(s["V"]), s["E"])) != comps0 or len(s["V"]) - len(s["E"]) != n - len(s0["E"]):
-                    rep.violation("C13.polyline.topology", callee, "mismatch:components_or_euler", cls, det)
+                    V("topology", "mismatch:components_or_euler", det)
                 length = sum(float(R.dot(R.sub(Pex[x], Pex[y]), R.sub(Pex[x], Pex[y]))) ** 0.5 for x, y in s["E"])
                 if abs(length - length0) > 1e-9 * max(1.0, length0):
-                    rep.violation("C13.polyline.length", callee, "mismatch:total_length", cls, dict(det, got=length, want=length0))
+                    V("length", "mismatch:total_length", dict(det, got=length, want=length0))
                 fails = _line_oracle_fails(res, s, rep)
                 if fails:
-                    rep.violation("C13.polyline.result_connectivity", callee, "mismatch:answers", cls, dict(det, **_summary(fails)))
+                    V("result_connectivity", "mismatch:answers", dict(det, **_summary(fails)))
                 # the object passed in: documented as processed in place -> must equal the result, caches included
                 if res is not pl:
                     sp = _snap_line(pl)
                     if sp != s and sp != {"V": st["V"], "E": st["E"]}:
-                        rep.violation("C13.polyline.input_object", callee, "side_effect:input_half_updated", cls, det)
+                        V("input_object", "side_effect:input_half_updated", det)
                     elif not _validity_line(sp):
                         f2 = _line_oracle_fails(pl, sp, rep)
                         if f2:
-                            rep.violation("C13.polyline.input_caches", callee, "mismatch:stale_connectivity", cls, dict(det, **_summary(f2)))
+                            V("input_caches", "mismatch:stale_connectivity", dict(det, **_summary(f2)))
                 if not queried:
                     after = {"V": s["V"], "E": s["E"], "P": Pex}
             if len(snaps) == 2 and snaps[False] != snaps[True]:
